@@ -478,7 +478,10 @@ class Background2D:
 
         # mask boxes with too few unmasked pixels
         ngood = np.count_nonzero(~np.isnan(data), axis=axis)
-        box_mask = ngood <= self._good_npixels_threshold
+        # a box is excluded if it has fewer than the minimum number of
+        # required unmasked pixels (i.e., *more than* exclude_percentile
+        # percent masked); completely masked boxes are always excluded
+        box_mask = ((ngood < self._good_npixels_threshold) | (ngood == 0))
 
         if np.ndim(bkg) == 0:
             if box_mask:  # single corner box
@@ -603,8 +606,9 @@ class Background2D:
                 ngood = np.hstack([ngood, col_ngood])
 
         if np.all(np.isnan(bkg)):
-            raise ValueError('All boxes contain <= '
-                             f'{self._good_npixels_threshold} good pixels. '
+            raise ValueError('All boxes contain < '
+                             f'{self._good_npixels_threshold} good pixels '
+                             '(or are completely masked). '
                              'Please check your data or increase '
                              '"exclude_percentile" to allow more boxes to '
                              'be included.')
